@@ -32,7 +32,12 @@ RULE = ('hist: hypothesis-generated histories: a pool of 2-4 documents (shared T
         '$w / $zz present in some maps only; $seq / $nodes sometimes a bare item) and all tokens of a history are parsed by '
         'one parser instance per version; mode "four" calls the module-level select() and iter_select() and '
         'Selector.select() / iter_select() with the same full set of keyword arguments (namespaces, parser, uri, fragment, '
-        'item, position, size, axis, schema, variables, current_dt, timezone) and demands that the four agree.')
+        'item, position, size, axis, schema, variables, current_dt, timezone) and demands that the four agree. '
+        'round 4: timezone-less date/time values inside caller-owned lists, maps and arrays reached through predicates, '
+        'for, if, head(), !, inline-function parameters, map/array call, lookup and map:get/array:get as operands of '
+        'date/time subtraction under an implicit timezone; named references to context-dependent functions of arity 0 '
+        '(name#0, string#0, root#0, local-name#0, data#0, position#0, last#0, ...) called dynamically by a reused '
+        'Selector/token on different documents and context items.')
 ASSUMPTIONS = [
     'repeatability compares elementpath with itself (pooled selector/token vs freshly parsed expression on freshly '
     'built inputs): the property names this relation; both sides failing in the same way is not a C05 discrepancy',
@@ -53,6 +58,9 @@ FLOORS = {
     'step:token-mode': (0.20, 'step'),
     'hist:selector-with-2-variable-shapes': (0.50, 'hist'),
     'step:poly-variable': (0.05, 'step'),
+    'step:indirect-date-time-operand': (0.04, 'step'),
+    'step:indirect-date-time-operand-with-tz': (0.45, 'step:indirect-date-time-operand'),
+    'step:context-function-reference': (0.04, 'step'),
     'step:entry-points-compared': (0.20, 'step'),
     'step:entry-points-compared-with-tz': (0.40, 'step:entry-points-compared'),
     'step:function-item': (0.06, 'step'),
@@ -156,6 +164,43 @@ TEMPLATES = [
     ('map-value', 31, "map{'k': ($d1, //a)}"),
     ('array-value', 31, '[$d1, $seq, //b]'),
     ('map-for-each', 31, 'map:for-each(map{$s: $n}, function($k, $v){($k, $v + 1)})'),
+    # caller-owned timezone-less date/time values reached by something other than a plain $var, as operands of
+    # date/time arithmetic under an implicit timezone (round-4 hardening)
+    ('dti-index', 2, '$dts[2] - $d2'),
+    ('dti-index-right', 2, '$d2 - $dts[1]'),
+    ('dti-paren', 2, '($d1) - $d2'),
+    ('dti-for', 2, '(for $x in $dts return $x)[1] - $d2'),
+    ('dti-if', 2, '(if ($n) then $d1 else $dts[2]) - $dts[1]'),
+    ('dti-filter', 2, '$dts[. = .][last()] - ($d2, $d1)[1]'),
+    ('dti-date', 2, "($dd, $dd)[2] - xs:date('1999-12-31Z')"),
+    ('dti-time', 2, "$tms[1] - xs:time('10:00:00Z')"),
+    ('dti-both-indirect', 2, '$dts[1] - $dts[2]'),
+    ('dti-head', 3, 'head($dts) - $d2'),
+    ('dti-let', 3, 'let $x := $dts return $x[2] - $x[1]'),
+    ('dti-bang', 3, '($dts ! (. - $d2))'),
+    ('dti-inline', 3, 'function($a, $b){$a - $b}($dts[1], $d2)'),
+    ('dti-map-call', 31, "$dm('k') - $d2"),
+    ('dti-map-lookup', 31, '$dm?k - $d2'),
+    ('dti-map-get', 31, "map:get($dm, 'k') - $dm?j[1]"),
+    ('dti-array-call', 31, '$da(1) - $d2'),
+    ('dti-array-lookup', 31, '$da?2 - $da?1'),
+    ('dti-array-get', 31, 'array:get($da, 1) - $d2'),
+    # named references to context-dependent functions of arity 0, called dynamically by a reused Selector / token
+    ('ctx-name', 3, 'let $f := fn:name#0 return $f()'),
+    ('ctx-string', 3, 'let $f := fn:string#0 return $f()'),
+    ('ctx-root', 3, 'let $f := fn:root#0 return $f()'),
+    ('ctx-local-name', 3, 'let $f := local-name#0 return ($f(), $f())'),
+    ('ctx-data', 3, 'let $f := data#0 return $f()'),
+    ('ctx-position-last', 3, '(//*)[position#0() = last#0()]'),
+    ('ctx-position-step', 3, 'for $f in position#0 return //*/$f()'),
+    ('ctx-name-step', 3, '//*/name#0()'),
+    ('ctx-string-bang', 3, 'let $f := string#0 return //* ! $f()'),
+    ('ctx-namespace-uri', 3, 'let $f := namespace-uri#0 return (//*)[last()]/$f()'),
+    ('ctx-number', 3, 'let $f := number#0, $g := string-length#0, $h := normalize-space#0 return ($f(), $g(), $h())'),
+    ('ctx-base-uri', 3, 'let $f := base-uri#0, $g := document-uri#1 return ($f(), $g(/))'),
+    ('ctx-generate-id', 3, 'let $f := path#0, $g := has-children#0 return ($f(), $g())'),
+    ('ctx-apply', 31, 'apply(name#0, [])'),
+    ('ctx-function-lookup', 3, "function-lookup(xs:QName('fn:name'), 0)()"),
     # one Selector / parser evaluated with variable maps of different SHAPES ($v: item, sequence, other type, node;
     # $w and $zz present in some maps only) (round-3 hardening)
     ('poly-count', 2, 'count($v) + count(//b)'),
@@ -339,6 +384,14 @@ def build_vars(vs, vdoc: Doc):
         'e': e, 'nodes': [e[0], e[1]],
         'sp': build_ser_params(vs.get('sp', 0)),
     }
+    # timezone-less date/time values inside caller-owned lists, maps and arrays
+    XPathMap, XPathArray = o['XPathMap'], o['XPathArray']
+    p31 = o['parsers'][31]()
+    vars_['tms'] = [dt.Time.fromstring(vs['t1']), dt.Time.fromstring('09:30:00')]
+    vars_['dm'] = XPathMap(p31, [('k', dt.DateTime10.fromstring(vs['d1'])),
+                                 ('j', [dt.DateTime10.fromstring(vs['d2']), dt.DateTime10.fromstring(vs['d1'])])])
+    vars_['da'] = XPathArray(p31, [dt.DateTime10.fromstring(vs['d1']), dt.DateTime10.fromstring('1999-12-31T23:59:59'),
+                                   [dt.Date10.fromstring(vs['dd'])]])
     # variables whose shape differs between the maps of one history; 'w' / 'zz' exist in some maps only
     for name in ('v', 'w', 'zz'):
         if vs.get(name) is not None:
@@ -640,6 +693,12 @@ def judge_hist(case, rec: Recorder | None = None):
                 rec.cls('step:rebind')
             elif name.startswith('poly-'):
                 rec.cls('step:poly-variable')
+            elif name.startswith('dti-'):
+                rec.cls('step:indirect-date-time-operand')
+                if tz:
+                    rec.cls('step:indirect-date-time-operand-with-tz')
+            elif name.startswith('ctx-'):
+                rec.cls('step:context-function-reference')
             if doc.backend == 'lxml':
                 rec.cls('step:lxml')
             if mode in ('token', 'tselect'):
@@ -688,13 +747,14 @@ def judge_hist(case, rec: Recorder | None = None):
             now = dump_vars(v)
             if now != var_snap[j]:
                 changed = [a[0] for a, b in zip(now, var_snap[j]) if a != b] or ['keys']
-                what = 'date-time-value' if all(c in ('d1', 'd2', 't1', 'dd', 'dts') for c in changed) else \
+                what = 'date-time-value' if all(c in ('d1', 'd2', 't1', 'dd', 'dts', 'tms', 'dm', 'da') for c in changed) else \
                     'function-item' if all(c in _FN_SRC for c in changed) else '+'.join(changed)
                 discs.append(Disc(f"C05/hist/variable-modified/{name}/{what}/tz={'set' if tz else 'none'}",
                                   [b for a, b in zip(now, var_snap[j]) if a != b][:2],
                                   [a for a, b in zip(now, var_snap[j]) if a != b][:2], where + f' changed v{j}'))
                 # re-create the caller's values so that the history continues with clean inputs
                 vd = Doc(VDOC, 'et', False)
+                vdocs.append(vd)          # (the replaced document stays alive: its ids are in the address book)
                 book.add(f'v{j}', vd)
                 varmaps[j] = build_vars(case['vars'][j], vd)
                 var_snap[j] = dump_vars(varmaps[j])
@@ -1024,6 +1084,8 @@ class Src:
 _T2 = [t[0] for t in TEMPLATES if t[1] == 2]
 _TALL = [t[0] for t in TEMPLATES]
 _DT_T = [t[0] for t in TEMPLATES if t[0].startswith(('dt-', 'time-', 'date-', 'tz-', 'implicit-'))]
+_DTI_T = [t[0] for t in TEMPLATES if t[0].startswith('dti-')]
+_CTX_T = [t[0] for t in TEMPLATES if t[0].startswith('ctx-')]
 _FN_T = [t[0] for t in TEMPLATES if t[1] >= 3]
 _FNITEM_T = [t[0] for t in TEMPLATES if t[0].startswith('fn-')]
 _SER_T = [t[0] for t in TEMPLATES if t[0].startswith(('ser-', 'parse-', 'json-', 'xml-to-json'))]
@@ -1040,8 +1102,8 @@ def decode_hist(parts):
     nex = 3 + s.n(4)
     exprs = []
     for _ in range(nex):
-        c = s.n(15)
-        name = (s.pick(_DT_T) if c < 3 else s.pick(_FNITEM_T) if c < 5 else s.pick(_SER_T) if c < 8 else
+        c = s.n(19)
+        name = (s.pick(_DTI_T) if c >= 17 else s.pick(_CTX_T) if c >= 15 else s.pick(_DT_T) if c < 3 else s.pick(_FNITEM_T) if c < 5 else s.pick(_SER_T) if c < 8 else
                 s.pick(_REBIND_T) if c < 9 else s.pick(_FN_T) if c < 10 else s.pick(_POLY_T) if c < 13 else s.pick(_TALL))
         exprs.append([name, s.pick([2, 3, 31, 31])])
     vars_ = []
